@@ -27,17 +27,59 @@ TABLE = {
 }
 
 
-def _closure(ctx, v):
-    """the function body plus the bodies of module-level helpers it calls (inlining bound 1), as AST node lists"""
-    nodes = [v.fi.node]
-    for n in ast.walk(v.fi.node):
-        if isinstance(n, ast.Call) and isinstance(n.func, ast.Name):
-            r = ctx.prog.resolve_name(v.fi.module, n.func.id)
-            from ..model import FunctionInfo
+def _closure(ctx, v, depth=2):
+    """[(FunctionInfo, binding)]: the function and the module-level helpers it (transitively, bound `depth`) calls;
+    `binding` maps a helper's parameter names to the expression of the TOP function they are bound to (plain names and
+    attribute references only)"""
+    from ..model import FunctionInfo
 
-            if isinstance(r, FunctionInfo) and r.module is v.fi.module and r.node is not v.fi.node:
-                nodes.append(r.node)
-    return nodes
+    out = [(v.fi, {a.arg: ast.Name(id=a.arg, ctx=ast.Load()) for a in v.fi.params})]
+    seen = {v.fi.qualname}
+    frontier = list(out)
+    for _ in range(depth):
+        nxt = []
+        for fi, bind in frontier:
+            for n in ast.walk(fi.node):
+                if not isinstance(n, ast.Call):
+                    continue
+                for callee in ctx.callees(fi, n):
+                    if callee.qualname in seen or callee.module is not fi.module or callee.cls is not None:
+                        continue
+                    seen.add(callee.qualname)
+                    names = [p.arg for p in callee.params]
+                    b2 = {}
+                    for i, a in enumerate(n.args):
+                        if i < len(names):
+                            b2[names[i]] = a
+                    for kw in n.keywords:
+                        if kw.arg:
+                            b2[kw.arg] = kw.value
+                    # express in terms of the top function
+                    b3 = {}
+                    for k, e in b2.items():
+                        if isinstance(e, ast.Name) and e.id in bind:
+                            b3[k] = bind[e.id]
+                        elif isinstance(e, (ast.Attribute, ast.Constant)):
+                            b3[k] = e
+                    nxt.append((callee, b3))
+        out += nxt
+        frontier = nxt
+    return out
+
+
+def _closed(ctx, bodies) -> bool:
+    """every plain-name call in the bodies is a builtin, a parameter (a callable handed in) or a function of the closure"""
+    import builtins
+
+    fns = {fi.name for fi, _ in bodies}
+    for fi, _ in bodies:
+        params = {a.arg for a in fi.params}
+        for n in ast.walk(fi.node):
+            if isinstance(n, ast.Call) and isinstance(n.func, ast.Name):
+                if n.func.id in fns or n.func.id in params or hasattr(builtins, n.func.id) or n.func.id in ("line_graph", "bipartite_projection"):
+                    continue
+                return False
+    return True
 
 
 def run(ctx):
@@ -55,42 +97,66 @@ def run(ctx):
     ctx.add_sites(res, ctx.sites(rules=("C-SIG", "K-ARG", "K-VID", "K-KEY-LOCAL"), files=files))
     for name, (proj, functional, takes_s, node_version) in TABLE.items():
         d = f"s_centralities.{name}"
-        v = ctx.view(d)
-        f = v.fi.short
-        bodies = _closure(ctx, v)
-        calls = [n for b in bodies for n in ast.walk(b) if isinstance(n, ast.Call)]
-        pcalls = [c for c in calls if isinstance(c.func, ast.Name) and c.func.id in ("line_graph", "bipartite_projection")]
-        # a projection passed as a callable (helper with a default / lambda)
-        wrong = [c for c in pcalls if c.func.id != proj]
-        if not pcalls:
-            res.unknown("D-DELEG", f, proj + "(...)", "projection", "no direct projection call (the projection is passed around as a value)", loc(v.fi, v.fi.node))
-        else:
-            res.check(not wrong, "D-DELEG", f, norm(pcalls[0]), "projection", f"{name} is computed on {wrong[0].func.id if wrong else '?'} instead of {proj}", loc(v.fi, v.fi.node))
-        ncalls = [c for c in calls if isinstance(c.func, ast.Attribute) and c.func.attr.endswith("_centrality")]
-        badn = [c for c in ncalls if c.func.attr != functional]
-        # references without a call (functional passed as an argument)
-        refs = [n for b in bodies for n in ast.walk(b) if isinstance(n, ast.Attribute) and n.attr.endswith("_centrality")]
-        badr = [n for n in refs if n.attr != functional and n in [x for x in ast.walk(v.fi.node)]]
-        res.check((bool(ncalls) or bool(refs)) and not badn and not badr, "D-DELEG", f, norm((badn or ncalls or refs)[0]) if (badn or ncalls or refs) else functional, "functional", f"{name} does not delegate to networkx.{functional}", loc(v.fi, v.fi.node))
-        if takes_s:
-            with res.guard("F.check_usectx, res, d, s,"):
-                F.check_use(ctx, res, d, ("s",))
-            own = [c for c in ast.walk(v.fi.node) if isinstance(c, ast.Call) and isinstance(c.func, ast.Name) and c.func.id == "line_graph"]
-            fw = [c for c in own if any(k.arg == "s" and norm(k.value) == "s" for k in c.keywords) or (len(c.args) >= 3 and norm(c.args[2]) == "s")]
-            res.check(bool(own) and len(fw) == len(own), "F-USE", f, norm(own[0]) if own else "line_graph(H, s=s)", "s-forwarded", "the line graph is built without the caller's s (the centrality is always that of the 1-line graph)", loc(v.fi, own[0] if own else v.fi.node))
-        # result keys go through the id table of the same projection call
-        for b in bodies:
-            unpack = [n for n in ast.walk(b) if isinstance(n, ast.Assign) and isinstance(n.value, ast.Call) and isinstance(n.value.func, ast.Name) and n.value.func.id in ("line_graph", "bipartite_projection") and isinstance(n.targets[0], ast.Tuple) and len(n.targets[0].elts) == 2]
-            for u in unpack:
-                g, table = norm(u.targets[0].elts[0]), norm(u.targets[0].elts[1])
-                # networkx called on g; keys translated with table
-                used_g = any(isinstance(c, ast.Call) and isinstance(c.func, ast.Attribute) and c.func.attr.endswith("_centrality") and c.args and norm(c.args[0]) == g for c in ast.walk(b))
-                trans = [s for s in ast.walk(b) if isinstance(s, ast.Subscript) and norm(s.value) == table and isinstance(s.ctx, ast.Load)]
-                res.check(used_g, "K-VID", f, norm(u), "graph-of-projection", "the networkx functional is not applied to the graph returned by the projection", loc(v.fi, u))
-                res.check(bool(trans), "K-VID", f, norm(u), "translated", "result keys are not translated back through the id table returned by the same projection call", loc(v.fi, u))
-        if node_version:
-            tests = [n for n in ast.walk(v.fi.node) if isinstance(n, ast.Compare) and len(n.ops) == 1 and isinstance(n.ops[0], (ast.In, ast.NotIn)) and isinstance(n.left, ast.Constant) and n.left.value == "E"]
-            res.check(bool(tests), "K-VID", f, '"E" not in k', "edge-vertices-dropped", "the hyperedge vertices of the bipartite projection are not filtered out of the node centralities", loc(v.fi, v.fi.node))
+        with res.guard(f"delegation of {name}"):
+            v = ctx.view(d)
+            f = v.fi.short
+            bodies = _closure(ctx, v)
+            closed = _closed(ctx, bodies)
+            calls = [(fi, n) for fi, _ in bodies for n in ast.walk(fi.node) if isinstance(n, ast.Call)]
+            pcalls = [(fi, c) for fi, c in calls if isinstance(c.func, ast.Name) and c.func.id in ("line_graph", "bipartite_projection")]
+            wrong = [c for _, c in pcalls if c.func.id != proj]
+            if not pcalls:
+                res.unknown("D-DELEG", f, proj + "(...)", "projection", "no direct projection call (the projection is passed around as a value)", loc(v.fi, v.fi.node))
+            else:
+                res.check(not wrong, "D-DELEG", f, norm(pcalls[0][1]), "projection", f"{name} is computed on {wrong[0].func.id if wrong else '?'} instead of {proj}", loc(v.fi, v.fi.node))
+            # the networkx functional: called directly, or referenced and handed to a helper
+            refs = [n for fi, _ in bodies for n in ast.walk(fi.node) if isinstance(n, ast.Attribute) and n.attr.endswith("_centrality")]
+            own_refs = [n for n in ast.walk(v.fi.node) if isinstance(n, ast.Attribute) and n.attr.endswith("_centrality")]
+            # references inside shared helpers are judged only when the helper is not shared (it names one functional)
+            judged = own_refs or refs
+            bad = [n for n in judged if n.attr != functional]
+            if not judged:
+                res.unknown("D-DELEG", f, functional, "functional", "no reference to a networkx centrality found", loc(v.fi, v.fi.node))
+            else:
+                res.check(not bad, "D-DELEG", f, norm((bad or judged)[0]), "functional", f"{name} does not delegate to networkx.{functional}", loc(v.fi, v.fi.node))
+            if takes_s:
+                with res.guard("F-USE of s"):
+                    F.check_use(ctx, res, d, ("s",))
+                lg = [(fi, bind, c) for fi, bind in bodies for c in ast.walk(fi.node) if isinstance(c, ast.Call) and isinstance(c.func, ast.Name) and c.func.id == "line_graph"]
+                if not lg:
+                    res.unknown("F-USE", f, "line_graph(H, s=s)", "s-forwarded", "no line_graph call found", loc(v.fi, v.fi.node))
+                for fi, bind, c in lg:
+                    sarg = next((k.value for k in c.keywords if k.arg == "s"), c.args[2] if len(c.args) >= 3 else None)
+                    if sarg is None or isinstance(sarg, ast.Constant):
+                        st = "violation"
+                    elif isinstance(sarg, ast.Name) and sarg.id in bind and isinstance(bind[sarg.id], ast.Name) and bind[sarg.id].id == "s":
+                        st = "ok"
+                    elif isinstance(sarg, ast.Name) and fi is not v.fi and sarg.id not in bind and sarg.id in {a.arg for a in fi.params}:
+                        st = "unknown"  # a helper parameter whose binding was not followed
+                    elif isinstance(sarg, ast.Name) and sarg.id in bind:
+                        st = "violation"  # bound to something else than the caller's s
+                    else:
+                        st = "unknown"
+                    res.add("F-USE", f, norm(c), "s-forwarded", st, "" if st == "ok" else "the line graph is built without the caller's s (the centrality is always that of the 1-line graph)", loc(fi, c))
+            # result keys go through the id table of the same projection call
+            for fi, _ in bodies:
+                b = fi.node
+                params = {a.arg for a in fi.params}
+                unpack = [n for n in ast.walk(b) if isinstance(n, ast.Assign) and isinstance(n.value, ast.Call) and isinstance(n.value.func, ast.Name) and n.value.func.id in ("line_graph", "bipartite_projection") and isinstance(n.targets[0], ast.Tuple) and len(n.targets[0].elts) == 2]
+                for u in unpack:
+                    g, table = norm(u.targets[0].elts[0]), norm(u.targets[0].elts[1])
+                    # the functional (a networkx attribute, or a callable handed in as a parameter) is applied to g
+                    fcalls = [c for c in ast.walk(b) if isinstance(c, ast.Call) and c.args and ((isinstance(c.func, ast.Attribute) and c.func.attr.endswith("_centrality")) or (isinstance(c.func, ast.Name) and c.func.id in params))]
+                    on_g = [c for c in fcalls if norm(c.args[0]) == g]
+                    other = [c for c in fcalls if c not in on_g and isinstance(c.func, ast.Attribute)]
+                    res.add("K-VID", f, norm(u), "graph-of-projection", "ok" if on_g and not other else ("violation" if other else "unknown"), "" if on_g and not other else "the networkx functional is not applied to the graph returned by the projection", loc(fi, u))
+                    trans = [s_ for s_ in ast.walk(b) if isinstance(s_, ast.Subscript) and norm(s_.value) == table and isinstance(s_.ctx, ast.Load)]
+                    returned = any(isinstance(r, ast.Return) and r.value is not None and table in {x.id for x in ast.walk(r.value) if isinstance(x, ast.Name)} for r in ast.walk(b))
+                    res.add("K-VID", f, norm(u), "translated", "ok" if trans else ("unknown" if returned else "violation"), "" if trans else "result keys are not translated back through the id table returned by the same projection call", loc(fi, u))
+            if node_version:
+                tests = [n for fi, _ in bodies for n in ast.walk(fi.node) if isinstance(n, ast.Compare) and len(n.ops) == 1 and isinstance(n.ops[0], (ast.In, ast.NotIn)) and isinstance(n.left, ast.Constant) and n.left.value == "E"]
+                starts = [n for fi, _ in bodies for n in ast.walk(fi.node) if isinstance(n, ast.Call) and isinstance(n.func, ast.Attribute) and n.func.attr == "startswith" and n.args and isinstance(n.args[0], ast.Constant) and n.args[0].value in ("E", "N")]
+                res.add("K-VID", f, '"E" not in k', "edge-vertices-dropped", "ok" if tests or starts else ("violation" if closed else "unknown"), "" if tests or starts else "the hyperedge vertices of the bipartite projection are not filtered out of the node centralities", loc(v.fi, v.fi.node))
     # ---- D-AVG
     with res.guard("D-AVG"):
         for name in ("s_betweenness_averaged", "s_closeness_averaged", "s_betweenness_nodes_averaged", "s_closenness_nodes_averaged"):
@@ -98,28 +164,46 @@ def run(ctx):
             f = v.fi.short
             bodies = _closure(ctx, v)
             ok_any = False
-            for b in bodies:
-                divs = [n for n in ast.walk(b) if isinstance(n, ast.BinOp) and isinstance(n.op, ast.Div) and isinstance(n.right, ast.Name)]
+            for fi, _ in bodies:
+                b = fi.node
+                divs = [n for n in ast.walk(b) if isinstance(n, ast.BinOp) and isinstance(n.op, ast.Div) and isinstance(n.right, (ast.Name, ast.Call))]
                 for dv in divs:
-                    T = dv.right.id
-                    defs = [m for m in ast.walk(b) if isinstance(m, ast.Assign) and isinstance(m.targets[0], ast.Name) and m.targets[0].id == T]
-                    coll = None
-                    if defs and isinstance(defs[-1].value, ast.Call) and isinstance(defs[-1].value.func, ast.Name) and defs[-1].value.func.id == "len":
-                        coll = norm(defs[-1].value.args[0])
-                    loops = [l for l in ast.walk(b) if isinstance(l, ast.For) and coll is not None and coll in norm(l.iter)]
-                    good = coll is not None and bool(loops)
+                    den = dv.right
+                    if isinstance(den, ast.Name):
+                        defs = [m for m in ast.walk(b) if isinstance(m, ast.Assign) and isinstance(m.targets[0], ast.Name) and m.targets[0].id == den.id]
+                        den = defs[-1].value if defs else den
+                    if not (isinstance(den, ast.Call) and isinstance(den.func, ast.Name) and den.func.id == "len" and den.args):
+                        continue  # some other division
+                    coll = norm(den.args[0])
+                    loops = [l for l in ast.walk(b) if isinstance(l, (ast.For, ast.comprehension)) and (coll == norm(l.iter) or norm(l.iter).startswith(coll + "."))]
+                    good = bool(loops)
                     ok_any = ok_any or good
-                    res.check(good, "D-AVG", f, norm(dv), "divisor", "the sum over snapshots is not divided by the number of snapshots that were iterated", loc(v.fi, dv))
-            res.check(ok_any, "D-AVG", f, "res[k] / T", "averaged", "the per-snapshot values are not averaged over the snapshots", loc(v.fi, v.fi.node))
-            subs = [n for b in bodies for n in ast.walk(b) if isinstance(n, ast.Call) and isinstance(n.func, ast.Attribute) and n.func.attr == "subhypergraph"]
-            res.check(bool(subs) and all(not s.args and not s.keywords for s in subs), "D-AVG", f, norm(subs[0]) if subs else "H.subhypergraph()", "snapshots", "the average does not range over all per-time snapshots", loc(v.fi, v.fi.node))
+                    res.check(good, "D-AVG", f, norm(dv), "divisor", "the sum over snapshots is not divided by the number of snapshots that were iterated", loc(fi, dv))
+            if not ok_any:
+                res.unknown("D-AVG", f, "res[k] / T", "averaged", "no division by the number of iterated snapshots was recognised", loc(v.fi, v.fi.node))
+            else:
+                res.ok("D-AVG", f, "res[k] / T", "averaged", loc(v.fi, v.fi.node))
+            subs = [n for fi, _ in bodies for n in ast.walk(fi.node) if isinstance(n, ast.Call) and isinstance(n.func, ast.Attribute) and n.func.attr == "subhypergraph"]
+            if subs:
+                res.check(all(not s_.args and not s_.keywords for s_ in subs), "D-AVG", f, norm(subs[0]), "snapshots", "the average does not range over all per-time snapshots", loc(v.fi, v.fi.node))
+            else:
+                res.unknown("D-AVG", f, "H.subhypergraph()", "snapshots", "the per-time snapshots were not recognised", loc(v.fi, v.fi.node))
     # ---- D-SUB
     with res.guard("D-SUB"):
         v = ctx.view("sub_hypergraph_centrality.subhypergraph_centrality")
-        calls = [n for n in ast.walk(v.fi.node) if isinstance(n, ast.Call) and isinstance(n.func, ast.Attribute) and n.func.attr == "adjacency_matrix"]
-        res.check(bool(calls) and all(norm(c.func.value) == "hypergraph" for c in calls), "D-SUB", v.fi.short, norm(calls[0]) if calls else "hypergraph.adjacency_matrix()", "adjacency", "the centrality is not computed from the adjacency matrix of the given hypergraph", loc(v.fi, v.fi.node))
-        txt = norm(v.fi.node)
-        res.check("eigh" in txt and "logsumexp" in txt, "D-SUB", v.fi.short, "np.linalg.eigh / special.logsumexp", "functional", "the log of the diagonal of exp(A) is not computed through the eigendecomposition / logsumexp", loc(v.fi, v.fi.node))
+        bodies = _closure(ctx, v)
+        top_param = v.fi.params[0].arg if v.fi.params else "hypergraph"
+        calls = [(fi, bind, n) for fi, bind in bodies for n in ast.walk(fi.node) if isinstance(n, ast.Call) and isinstance(n.func, ast.Attribute) and n.func.attr == "adjacency_matrix"]
+        if not calls:
+            res.unknown("D-SUB", v.fi.short, "hypergraph.adjacency_matrix()", "adjacency", "no adjacency_matrix call found", loc(v.fi, v.fi.node))
+        for fi, bind, c in calls:
+            recv = c.func.value
+            src = bind.get(recv.id) if isinstance(recv, ast.Name) else None
+            good = isinstance(src, ast.Name) and src.id == top_param
+            bad = isinstance(recv, ast.Name) and not good and (recv.id in bind or fi is v.fi)
+            res.add("D-SUB", v.fi.short, norm(c), "adjacency", "ok" if good else ("violation" if bad else "unknown"), "" if good else "the centrality is not computed from the adjacency matrix of the given hypergraph", loc(fi, c))
+        txt = " ".join(norm(fi.node) for fi, _ in bodies)
+        res.add("D-SUB", v.fi.short, "np.linalg.eigh / special.logsumexp", "functional", "ok" if "eigh" in txt and "logsumexp" in txt else "unknown", "", loc(v.fi, v.fi.node))
     # ---- D-LABELIDX: the eigenvector centralities index their vectors by label (exemption) - the returned dict must
     with res.guard("D-LABELIDX: the eigenvector centralities index their vectors by label (exemption) - the returned dict must"):
         # pair each label with the entry at THAT label, not with the entry at its insertion position
